@@ -1,0 +1,23 @@
+//go:build verif
+// +build verif
+
+package os
+
+// VerifToOSPath runs the name-to-OS-path mapping under an explicit GOOS / separator convention.
+func (fs *FS) VerifToOSPath(goos string, separator rune, op, fsPath string) (string, error) {
+	p, err := fs.toOSPath(goos, separator, op, fsPath)
+	if err != nil {
+		return "", err
+	}
+	return p, nil
+}
+
+// VerifFromOSPath runs the OS-path-to-name mapping under an explicit GOOS / separator / volume convention.
+func (fs *FS) VerifFromOSPath(goos string, separator rune, getVolumeName func(string) string, op, osPath string) (string, error) {
+	return fs.fromOSPath(goos, separator, getVolumeName, op, osPath)
+}
+
+// VerifSubVolume returns an FS with the given volume name without consulting the host's filepath.VolumeName.
+func (fs *FS) VerifSubVolume(volumeName string) *FS {
+	return &FS{root: fs.root, volumeName: volumeName}
+}
